@@ -14,6 +14,13 @@ sd = os.path.join(HERE, 'seeded')
 for d in sorted(os.listdir(sd)) if variant and os.path.isdir(sd) else []:
     if d.startswith(pid + '-'):
         prior.append(d.split('-', 2)[2].replace('-', ' '))
+EXTRA = {"C01": "anything about when or whether the build epoch (iteration number) is written to the database",
+         "C03": "anything about when or whether the build epoch (iteration number) is written to the database",
+         "C04": "anything about when or whether the build epoch (iteration number) is written to the database",
+         "C05": "anything about when or whether the build epoch (iteration number) is written to the database",
+         "C02": "anything in DependencyKeyIDs::cleanSingleUseDependencies"}
+if prior and pid in EXTRA:
+    prior.append(EXTRA[pid])
 avoid = ("\n\nOTHER CONTRIBUTORS ALREADY PRODUCED these injections for this property; choose a DIFFERENT mechanism, preferably in a different function or file: "
          + '; '.join(prior) + '.') if prior else ''
 print(f"""You are helping to test a verification harness by producing a realistic BUG INJECTION for the open-source project apple/swift-llbuild (C++). Work ONLY inside the scratch git worktree /tmp/seed/{pid}{variant} (a full checkout with a configured build in ./_build; `./run_tests.sh` rebuilds and runs the project's 83 pinned unit tests, ~30 s). Do not read or touch /repo or /verif, and do not use the network.
